@@ -110,8 +110,13 @@ def evaluate__parenthesized_expression(self: XPathToken, context: ta.ContextType
 
             if any(x.symbol == '?' and not x for x in tokens):
                 func.check_arguments_number(len(tokens))
+                # A partial application is a new function item with its own arguments:
+                # the fixed arguments are evaluated now, in the context of the application.
                 func = copy(func)
-                func[:] = tokens
+                func._items = [
+                    tk if tk.symbol == '?' and not tk else
+                    ValueToken(self.parser, value=tk.evaluate(context)) for tk in tokens
+                ]
                 func.to_partial_function()
                 return func
 
